@@ -3,6 +3,7 @@ package vc
 import (
 	"fmt"
 	"go/types"
+	"math/big"
 )
 
 // ----- naming ---------------------------------------------------------------
@@ -75,6 +76,10 @@ func (fr *Frame) isFreshSince(r Term, alloc Term) Term {
 
 const maxObj = int64(1) << 48
 
+var minI64 = IntBig(new(big.Int).Neg(two63))
+var maxI64 = IntBig(new(big.Int).Sub(two63, big.NewInt(1)))
+var maxU64 = IntBig(new(big.Int).Sub(two64, big.NewInt(1)))
+
 // assumeWF assumes the representation invariants of a value of static type v.T.
 func (fr *Frame) assumeWF(st *State, v Val) {
 	if v.K != KNormal {
@@ -92,9 +97,15 @@ func (fr *Frame) wfTerms(st *State, t types.Type, c []Term, out *[]Term, depth i
 	case *types.Basic:
 		if isString(t) {
 			*out = append(*out, fr.allocated(st, c[0]),
-				BVCmp("bvsle", BV(0, 64), c[1]), BVCmp("bvsle", c[1], BV(maxObj, 64)),
-				BVCmp("bvsle", BV(0, 64), c[2]), BVCmp("bvsle", c[2], BV(maxObj, 64)),
-				Implies(Eq(c[0], Nil), Eq(c[2], BV(0, 64))))
+				ILe(IntT(0), c[1]), ILe(c[1], IntT(maxObj)),
+				ILe(IntT(0), c[2]), ILe(c[2], IntT(maxObj)),
+				Implies(Eq(c[0], Nil), Eq(c[2], IntT(0))))
+		} else if isWide(t) {
+			if isSigned(t) {
+				*out = append(*out, ILe(minI64, c[0]), ILe(c[0], maxI64))
+			} else {
+				*out = append(*out, ILe(IntT(0), c[0]), ILe(c[0], maxU64))
+			}
 		}
 		if u.Kind() == types.UnsafePointer {
 			*out = append(*out, fr.allocated(st, c[0]))
@@ -103,10 +114,10 @@ func (fr *Frame) wfTerms(st *State, t types.Type, c []Term, out *[]Term, depth i
 		*out = append(*out, fr.allocated(st, c[0]))
 	case *types.Slice:
 		*out = append(*out, fr.allocated(st, c[0]),
-			BVCmp("bvsle", BV(0, 64), c[1]), BVCmp("bvsle", c[1], BV(maxObj, 64)),
-			BVCmp("bvsle", BV(0, 64), c[2]), BVCmp("bvsle", c[2], c[3]),
-			BVCmp("bvsle", c[3], BV(maxObj, 64)),
-			Implies(Eq(c[0], Nil), And(Eq(c[3], BV(0, 64)), Eq(c[1], BV(0, 64)))))
+			ILe(IntT(0), c[1]), ILe(c[1], IntT(maxObj)),
+			ILe(IntT(0), c[2]), ILe(c[2], c[3]),
+			ILe(c[3], IntT(maxObj)),
+			Implies(Eq(c[0], Nil), And(Eq(c[3], IntT(0)), Eq(c[1], IntT(0)))))
 	case *types.Interface:
 		*out = append(*out, fr.allocated(st, c[1]), IntCmp(">=", c[0], IntT(0)),
 			Implies(Eq(c[0], IntT(0)), Eq(c[1], Nil)))
@@ -204,7 +215,7 @@ func (fr *Frame) loadArray(st *State, ref Term, t types.Type, at *types.Array) V
 	l := fr.en.layout(at.Elem())
 	v := Val{K: KNormal, T: t, C: make([]Term, len(l))}
 	for k, c := range l {
-		h := fr.heap(st, elemHeap(at.Elem(), c.Path), ArrSort(SInt, ArrSort(SBV64, c.Sort)))
+		h := fr.heap(st, elemHeap(at.Elem(), c.Path), ArrSort(SInt, ArrSort(SInt, c.Sort)))
 		v.C[k] = Select(h, ref)
 	}
 	return v
@@ -217,7 +228,7 @@ func (fr *Frame) storeArray(st *State, ref Term, at *types.Array, v Val) {
 	}
 	for k, c := range l {
 		hn := elemHeap(at.Elem(), c.Path)
-		h := fr.heap(st, hn, ArrSort(SInt, ArrSort(SBV64, c.Sort)))
+		h := fr.heap(st, hn, ArrSort(SInt, ArrSort(SInt, c.Sort)))
 		fr.setHeap(st, hn, Store(h, ref, v.C[k]))
 	}
 }
@@ -231,7 +242,7 @@ func (fr *Frame) loadElem(st *State, obj, idx Term, et types.Type, lo, hi int, r
 	v := Val{K: KNormal, T: rt}
 	for k := lo; k < hi; k++ {
 		c := l[k]
-		h := fr.heap(st, elemHeap(et, c.Path), ArrSort(SInt, ArrSort(SBV64, c.Sort)))
+		h := fr.heap(st, elemHeap(et, c.Path), ArrSort(SInt, ArrSort(SInt, c.Sort)))
 		v.C = append(v.C, Select(Select(h, obj), idx))
 	}
 	return v
@@ -248,7 +259,7 @@ func (fr *Frame) storeElem(st *State, obj, idx Term, et types.Type, lo, hi int, 
 	for k := lo; k < hi; k++ {
 		c := l[k]
 		hn := elemHeap(et, c.Path)
-		h := fr.heap(st, hn, ArrSort(SInt, ArrSort(SBV64, c.Sort)))
+		h := fr.heap(st, hn, ArrSort(SInt, ArrSort(SInt, c.Sort)))
 		fr.setHeap(st, hn, Store(h, obj, Store(Select(h, obj), idx, v.C[k-lo])))
 	}
 }
@@ -256,14 +267,14 @@ func (fr *Frame) storeElem(st *State, obj, idx Term, et types.Type, lo, hi int, 
 // objArray returns the content array of component k for an object.
 func (fr *Frame) objArray(st *State, obj Term, et types.Type, k int) Term {
 	c := fr.en.layout(et)[k]
-	h := fr.heap(st, elemHeap(et, c.Path), ArrSort(SInt, ArrSort(SBV64, c.Sort)))
+	h := fr.heap(st, elemHeap(et, c.Path), ArrSort(SInt, ArrSort(SInt, c.Sort)))
 	return Select(h, obj)
 }
 
 func (fr *Frame) setObjArray(st *State, obj Term, et types.Type, k int, arr Term) {
 	c := fr.en.layout(et)[k]
 	hn := elemHeap(et, c.Path)
-	h := fr.heap(st, hn, ArrSort(SInt, ArrSort(SBV64, c.Sort)))
+	h := fr.heap(st, hn, ArrSort(SInt, ArrSort(SInt, c.Sort)))
 	fr.setHeap(st, hn, Store(h, obj, arr))
 }
 
